@@ -143,8 +143,12 @@ func sendHTTPResponse(result runtime.Element, err error, w http.ResponseWriter) 
 				}
 
 				// write to response directly
-				for k, v := range respHeader.(*value.HashMap).GetValue() {
-					w.Header().Add(k, v.String())
+				// in the dictionary's own key order: names that differ only in letter case
+				// are the same header field, and ranging over the Go map would put their
+				// values on the wire in a different order from one response to the next
+				headerDict := respHeader.(*value.HashMap)
+				for _, k := range headerDict.GetKeyOrder() {
+					w.Header().Add(k, headerDict.GetValue()[k].String())
 				}
 				w.WriteHeader(int(statusCode.(*value.Number).GetValue()))
 				w.Write([]byte(contentStr))
